@@ -7,7 +7,8 @@
 //!   idleTimeout: `-` none, `<ms>`, or `u<µs>` (a timeout below one millisecond)
 //!   op: `i r k mux` issue | `p r` poll | `c r` cancel | `d r ok0|ok1|okp|fc|fh` dial outcome (okp: the protocol
 //!       comes back with a connection that cannot be shared, whatever the request asked for) | `f r` the response
-//!       arrives | `cr c` connection ready again | `cc c` peer closes connection | `run`
+//!       arrives | `cr c` connection ready again | `cc c` peer closes connection | `ce c` a released, still busy connection's
+//!       readiness poll answers with an error (its transport stays open) | `run`
 //!       | `t ms` (real sleep, tokio's paused clock advanced by as much, no task runs) | `mark`
 //!       | `hold` another thread takes the pool's mutex and keeps it for 10 ms of real time: the next op runs into it (for
 //!         the model nothing happens: whoever needs the mutex waits for it)
@@ -68,6 +69,8 @@ struct ConnState {
     origin: usize,
     open: AtomicBool,
     busy: AtomicBool,
+    /// `poll_ready` answers with an error although the transport is open (the connection was taken over by an upgrade, say)
+    failed: AtomicBool,
     wakers: Mutex<Vec<Waker>>,
 }
 
@@ -149,6 +152,7 @@ impl Connection<Body> for SConn {
     }
     fn poll_ready(&mut self, cx: &mut Context<'_>) -> Poll<Result<(), SErr>> {
         if !self.st.open.load(Ordering::SeqCst) { return Poll::Ready(Err(SErr("closed"))); }
+        if self.st.failed.load(Ordering::SeqCst) { return Poll::Ready(Err(SErr("not an http connection any more"))); }
         if self.st.busy.load(Ordering::SeqCst) { self.st.wakers.lock().unwrap().push(cx.waker().clone()); return Poll::Pending; }
         Poll::Ready(Ok(()))
     }
@@ -173,7 +177,7 @@ impl Service<ProtocolRequest<SIo, Body>> for SProtocol {
         if io.handshake_fails { return std::future::ready(Err(ConnectionError::Handshake(Box::new(SErr("handshake"))))); }
         let h2 = !io.plain && (req.version.multiplex() || io.alpn);
         let mut w = self.0.lock().unwrap();
-        let st = Arc::new(ConnState { lax: w.lax, h2, origin: io.origin, open: AtomicBool::new(true), busy: AtomicBool::new(false), wakers: Mutex::new(vec![]) });
+        let st = Arc::new(ConnState { lax: w.lax, h2, origin: io.origin, open: AtomicBool::new(true), busy: AtomicBool::new(false), failed: AtomicBool::new(false), wakers: Mutex::new(vec![]) });
         let id = w.conns.len();
         w.conns.push(st.clone());
         let _ = io.req;
@@ -358,6 +362,23 @@ impl Session {
                         "D".into()
                     }
                     None => "N".into(),
+                }
+            }
+            "ce" => {
+                // a connection that was released while still busy - it sits in a hand-back task - turns out not to be an HTTP
+                // connection any more: its readiness poll answers with an error, though the transport is open and no response is outstanding
+                let c = n(1);
+                let st = self.w.lock().unwrap().conns.get(c).cloned();
+                let held = { let w = self.w.lock().unwrap(); self.reqs.iter().any(|(r, rq)| rq.status == Status::Exec && w.execs.iter().any(|(er, ec, _)| er == r && *ec == c)) };
+                match st {
+                    Some(st) if st.open.load(Ordering::SeqCst) && st.busy.load(Ordering::SeqCst) && !st.failed.load(Ordering::SeqCst) && !held && Arc::strong_count(&st) > 1 => {
+                        st.failed.store(true, Ordering::SeqCst);
+                        st.busy.store(false, Ordering::SeqCst);
+                        let ws: Vec<Waker> = st.wakers.lock().unwrap().drain(..).collect();
+                        for wk in ws { wk.wake(); }
+                        "D".into()
+                    }
+                    _ => "N".into(),
                 }
             }
             "run" => { tokio::time::sleep(std::time::Duration::from_millis(1)).await; "D".into() }
@@ -720,6 +741,7 @@ fn gen_mode(r: &mut Rng, _i: u64, timed: bool) -> String {
                 if blind { 1 } else if idle_c.is_empty() && busy.is_empty() { 0 } else { 3 },       // conn close
                 8,                                                                                   // run
                 if timed { 6 } else { 0 },                                                           // tick
+                if blind { 1 } else if busy.is_empty() { 0 } else { 3 },                            // readiness error
             ];
             if contended && r.chance(1, 5) { ops.push("hold".to_string()); }
             match r.weighted(&weights) {
@@ -748,6 +770,7 @@ fn gen_mode(r: &mut Rng, _i: u64, timed: bool) -> String {
                     emit!(format!("cc {c}"));
                 }
                 7 => emit!("run".to_string()),
+                9 => { let c = if blind || busy.is_empty() { r.below(6) } else { *r.pick(&busy) as u64 }; emit!(format!("ce {c}")); }
                 _ => emit!(format!("t {}", if r.chance(1, 2) { 150 } else { 5 })),
             }
         }
